@@ -331,7 +331,7 @@ def rt_eval(features, route, o, st=None):
         return out
     if st is not None:
         st.n("evaluations")
-    rsfx = ("/route=" + route) if route in ("code+", "code-rev", "code-rot") else ""
+    rsfx = "/route=code+" if route == "code+" else ""  # (code-rev / code-rot are the plain code route with other dict orders)
     r1 = _print(s, o)
     if r1[0] != "ok":
         return [("print-raises:%s%s" % (r1[1], rsfx), "to_string(%s) raised %s: %s" % (o, r1[1], r1[2]))]
